@@ -91,7 +91,7 @@ def reference(ops):
     return out
 
 
-def build_app():
+def build_app(gzip=False):
     import numpy as np
     from pydap.handlers.lib import BaseHandler
     from pydap.model import BaseType, DatasetType, GridType, SequenceType
@@ -99,7 +99,8 @@ def build_app():
     sq = SequenceType("q")
     for c in HD:
         sq[c] = BaseType(c)
-    sq.data = np.array(ROWS, dtype=[(c, "i4") for c in HD])
+    # columns of different wire types (Int32, Float64, Int32): two selections of the same length then differ position by position
+    sq.data = np.array(ROWS, dtype=[(c, "f8" if k == 1 else "i4") for k, c in enumerate(HD)])
     ds["q"] = sq
     ds["x"] = BaseType("x", np.arange(12, dtype="i4").reshape(3, 4))
     g = GridType("g")
@@ -107,7 +108,7 @@ def build_app():
     g["m0"] = BaseType("m0", np.array([10.0, 20.0]))
     g["m1"] = BaseType("m1", np.array([1.0, 2.0, 3.0]))
     ds["g"] = g
-    return BaseHandler(ds)
+    return BaseHandler(ds, gzip=gzip)
 
 
 def run_histories(r, rng, T, make_session, direct, req_cases, on_request=None):
@@ -116,15 +117,44 @@ def run_histories(r, rng, T, make_session, direct, req_cases, on_request=None):
     from pydap.client import open_url
     nh = 30 if T == "quick" else 400
     for hi in range(nh):
-        app = build_app()
+        app = build_app(gzip=rng.random() < 0.4)      # a compressed body reaches the client in blocks not aligned to records
         sess, adapter = make_session(app)
-        ds = open_url(TR.BASE + "/d", session=sess, protocol="dap2", output_grid=True)
+        if sess is None:          # the in-process mode: open_url(url, application=app), no session at all
+            ds = open_url(TR.BASE + "/d", application=adapter, protocol="dap2", output_grid=True)
+        else:
+            ds = open_url(TR.BASE + "/d", session=sess, protocol="dap2", output_grid=True)
         objs = [("seq", ds["q"], [])]          # (kind, object, operation chain)
         arrays = [("arr", ds["x"], ()), ("grid", ds["g"], ())]
         first_reads = {}
         L = rng.randint(3, 8)
         for step in range(L):
-            kind = rng.choice(["cols", "cond", "slice", "int", "child", "read", "read", "array", "grid"])
+            kind = rng.choice(["cols", "cond", "slice", "int", "child", "read", "read", "array", "grid", "overlap"])
+            if kind == "overlap":
+                # reads that overlap in time: one abandoned after its first record, or two consumed in lock step
+                try:
+                    o1 = rng.choice(objs)
+                    o2 = rng.choice(objs)
+                    if rng.random() < 0.5:
+                        it = iter(o1[1].iterdata())
+                        next(it, None)
+                        del it
+                    else:
+                        def rows_of(o, recs):
+                            if any(x[0] == "child" for x in o[2]):
+                                return [[int(np.asarray(v).item())] for v in recs]
+                            return [[int(x) for x in v] for v in recs]
+                        pairs = list(zip(o1[1].iterdata(), o2[1].iterdata()))
+                        g1, g2 = rows_of(o1, [p[0] for p in pairs]), rows_of(o2, [p[1] for p in pairs])
+                        w1, w2 = reference(o1[2]), reference(o2[2])
+                        n_ = min(len(w1), len(w2))
+                        if g1 != w1[:n_] or g2 != w2[:n_]:
+                            direct.append({"law": "two reads consumed in lock step return what each returns alone", "chains": [repr(o1[2]), repr(o2[2])],
+                                           "got": [g1, g2], "want": [w1[:n_], w2[:n_]], "history": hi})
+                except Exception as e:  # noqa
+                    if reference(o1[2]) and reference(o2[2]):
+                        direct.append({"law": "overlapping reads", "chains": [repr(o1[2]), repr(o2[2])], "error": repr(e)[:200]})
+                r.count((hi, step, "overlap"))
+                kind = "read"
             if kind in ("array", "grid"):
                 idx = rng.choice([(slice(None),), (slice(0, 2), slice(1, None)), (1,), (Ellipsis, slice(None, None, 2)), (0, 1)])
                 try:
@@ -237,6 +267,18 @@ def run_histories(r, rng, T, make_session, direct, req_cases, on_request=None):
     return nh
 
 
+class Recorder:
+    """WSGI middleware standing where the session adapter stands: records (method, url) of every request in .seen"""
+
+    def __init__(self, app):
+        self.app, self.seen = app, []
+
+    def __call__(self, environ, start_response):
+        q = environ.get("QUERY_STRING", "")
+        self.seen.append((environ.get("REQUEST_METHOD", "GET"), TR.BASE + environ.get("PATH_INFO", "") + ("?" + q if q else "")))
+        return self.app(environ, start_response)
+
+
 def main():
     r = Report(PID)
     rng = random.Random(r.seed)
@@ -244,7 +286,10 @@ def main():
     proof_phase(r, PID)
     use_repo()
     direct, req_cases = [], []
-    nh = run_histories(r, rng, T, TR.plain_session, direct, req_cases)
+    def some_transport(app):
+        # a session mounted on the application, or the application itself (webob hands the body over in the server's own blocks)
+        return TR.plain_session(app) if rng.random() < 0.5 else (None, Recorder(app))
+    nh = run_histories(r, rng, T, some_transport, direct, req_cases)
     r.extra["histories"] = nh
     try:
         bad = coq_eval_mismatches(PID + "_req", IMPORTS, "chk_request", req_cases,
